@@ -494,14 +494,128 @@ theorem conv_weight_order (fx : Nat) (sg sg' : Bool) (mn mx : Option Int) (fmn f
     (Conv.string smin smax slen).weight < Conv.path.weight := by
   simp [Conv.weight]
 
--- OPEN (P1): insertion_order_irrelevant — for rule lists that are permutations of each other and have
--- pairwise distinct part keys where they overlap, `matchSM` is equal.
---   ∀ cfg specs specs' m m', specs.Perm specs' → mkMap cfg specs = some m → mkMap cfg specs' = some m' →
---     (no two rules have equal `parts`) → outcome m = outcome m' (up to the rule index)
--- What is proved instead, for ANY insertion order: the outcome class is determined by
--- insertion-order-free conditions (`match_sound`, `match_notfound_only_if_partial`, `match_405_iff_partial`:
--- their right-hand sides mention only membership in the rule list) and the returned rule is always
--- specificity-minimal (`match_priority`); what is missing is the uniqueness of that minimum under the
--- distinct-parts hypothesis and the bookkeeping relating rule indices of the two maps.
+/-! ### insertion order -/
+
+/-- does rule `r` admit the input directly for the request? -/
+def directly (q : Req) (input : List Str) (r : Rule) : Prop :=
+  r.spec.buildOnly = false ∧ ruleOK q r = true ∧ (walkVia .direct r.parts input).isSome = true
+
+instance (q : Req) (input : List Str) (r : Rule) : Decidable (directly q input r) := by
+  unfold directly; infer_instance
+
+/-- **search_none_insertion_order_irrelevant.** Whether the search finds nothing at all (the source of
+`NotFound` / `MethodNotAllowed`) does not depend on the order in which the rules were added to the
+matcher: for any two insertion orders of the same rules, one search is `None` iff the other is. -/
+theorem search_none_insertion_order_irrelevant {rules rules' : List Rule} (hperm : rules.Perm rules')
+    (q : Req) (input : List Str) :
+    (dfs q (buildRoot rules) input []).res = .none ↔ (dfs q (buildRoot rules') input []).res = .none := by
+  -- `None` is equivalent to a statement about membership only
+  have key : ∀ (rs : List Rule), (dfs q (buildRoot rs) input []).res = .none ↔
+      ∀ r ∈ rs, r.spec.buildOnly = false → ruleOK q r = true →
+        ∀ via, (via = .trailing → r.strict = false) → walkVia via r.parts input = none := by
+    intro rs
+    constructor
+    · intro h r hr hbo hok via hvia
+      exact dfs_complete q _ (WF.buildRoot rs) input [] h r.parts r via
+        ((inTrie_buildRoot rs).2 ⟨hr, hbo, rfl⟩) hok hvia
+    · intro h
+      have hs := dfs_sound q (buildRoot rs) input []
+      cases hr : (dfs q (buildRoot rs) input []).res with
+      | none => rfl
+      | found r vs =>
+        exfalso
+        rw [hr] at hs
+        obtain ⟨hok, ps, vs', via, hi, _, hw, ha⟩ := hs
+        rw [inTrie_buildRoot] at hi
+        obtain ⟨hmem, hbo, rfl⟩ := hi
+        have := h r hmem hbo hok via (by intro hv; subst hv; simpa [viaAllowed] using ha)
+        rw [hw] at this; cases this
+      | slash =>
+        exfalso
+        rw [hr] at hs
+        obtain ⟨r, ps, vs', hi, hok, _, hw⟩ := hs
+        rw [inTrie_buildRoot] at hi
+        obtain ⟨hmem, hbo, rfl⟩ := hi
+        have := h r hmem hbo hok .noslash (by intro hv; cases hv)
+        rw [hw] at this; cases this
+  rw [key rules, key rules']
+  constructor
+  · intro h r hr; exact h r (hperm.mem_iff.2 hr)
+  · intro h r hr; exact h r (hperm.mem_iff.1 hr)
+
+/-- **insertion_order_irrelevant_partial.** For two insertion orders of the same strict rules: if the
+specificity order decides between any two different rules that admit the input directly (no ties),
+both searches return the same rule with the same groups. -/
+theorem insertion_order_irrelevant_partial {rules rules' : List Rule} (hperm : rules.Perm rules')
+    (hstrict : ∀ r ∈ rules, r.strict = true) (q : Req) (input : List Str)
+    (hdecisive : ∀ r1 ∈ rules, ∀ r2 ∈ rules, r1 ≠ r2 → directly q input r1 → directly q input r2 →
+      specLt r1.parts r2.parts = true ∨ specLt r2.parts r1.parts = true)
+    {r r' : Rule} {vs vs' : List Str}
+    (h1 : (dfs q (buildRoot rules) input []).res = .found r vs)
+    (h2 : (dfs q (buildRoot rules') input []).res = .found r' vs') : r = r' ∧ vs = vs' := by
+  -- both results are direct admissions by rules of the same set
+  have just : ∀ (rs : List Rule) (hrs : ∀ x ∈ rs, x.strict = true) {x : Rule} {ws : List Str},
+      (dfs q (buildRoot rs) input []).res = .found x ws →
+      x ∈ rs ∧ directly q input x ∧ walkVia .direct x.parts input = some ws := by
+    intro rs hrs x ws h
+    have hs := dfs_sound q (buildRoot rs) input []
+    rw [h] at hs
+    obtain ⟨hok, ps, ws', via, hi, hv, hw, ha⟩ := hs
+    rw [inTrie_buildRoot] at hi
+    obtain ⟨hmem, hbo, rfl⟩ := hi
+    have hvia : via = .direct := by
+      cases via with
+      | direct => rfl
+      | trailing => simp [viaAllowed, hrs x hmem] at ha
+      | noslash => simp [viaAllowed, hrs x hmem] at ha
+    subst hvia
+    simp only [List.nil_append] at hv
+    subst hv
+    exact ⟨hmem, ⟨hbo, hok, by rw [hw]; rfl⟩, hw⟩
+  have hstrict' : ∀ x ∈ rules', x.strict = true := fun x hx => hstrict x (hperm.mem_iff.2 hx)
+  obtain ⟨hm1, hd1, hw1⟩ := just rules hstrict h1
+  obtain ⟨hm2, hd2, hw2⟩ := just rules' hstrict' h2
+  have hm2' : r' ∈ rules := hperm.mem_iff.2 hm2
+  have hm1' : r ∈ rules' := hperm.mem_iff.1 hm1
+  by_cases hrr : r = r'
+  · subst hrr
+    rw [hw1] at hw2
+    exact ⟨rfl, by injection hw2⟩
+  · exfalso
+    have pr : ∀ (rs : List Rule) {x y : Rule} {ws : List Str}, (dfs q (buildRoot rs) input []).res = .found x ws →
+        y ∈ rs → directly q input y → specLt y.parts x.parts = false := by
+      intro rs x y ws h hy hdy
+      obtain ⟨ps, hi⟩ := found_inTrie h
+      have hi0 := hi
+      rw [inTrie_buildRoot] at hi0
+      obtain ⟨_, _, rfl⟩ := hi0
+      obtain ⟨w, hw⟩ := Option.isSome_iff_exists.1 hdy.2.2
+      exact dfs_priority q _ (WF.buildRoot rs) (Sorted.buildRoot rs) (UniqPath.buildRoot rs) input [] x ws h
+        x.parts y.parts y w hi ((inTrie_buildRoot rs).2 ⟨hy, hdy.1, rfl⟩) hdy.2.1 hw
+    rcases hdecisive r hm1 r' hm2' hrr hd1 hd2 with h | h
+    · have := pr rules' h2 hm1' hd1
+      rw [h] at this; cases this
+    · have := pr rules h1 hm2' hd2
+      rw [h] at this; cases this
+
+-- non-vacuity: the four rules of `specsPrio` (string, path, int, literal `12`) are strict and, on `/12`,
+-- all admit the input directly; the specificity order decides every pair
+example : (let rules := (bindRules {} specsPrio).getD []
+    let q : Req := ⟨"GET".toList, false⟩
+    let input := segments [] "/12".toList
+    rules.length = 4 ∧ (∀ r ∈ rules, r.strict = true ∧ directly q input r) ∧
+    (∀ r1 ∈ rules, ∀ r2 ∈ rules, r1 ≠ r2 → directly q input r1 → directly q input r2 →
+      specLt r1.parts r2.parts = true ∨ specLt r2.parts r1.parts = true)) := by
+  decide +kernel
+
+-- OPEN (P1): insertion_order_irrelevant at full strength — "for rule lists that are permutations of each
+-- other and have pairwise distinct part keys where they overlap, `matchSM` is equal". Proved above, for
+-- arbitrary permutations of the insertion order: the search is `None` for one order iff for the other
+-- (hence NotFound / 405 by the characterisations, which mention membership only), and a found rule
+-- and its groups are the same whenever the specificity order decides between the directly admitting
+-- rules (strict rules). Missing: deriving that decisiveness from "pairwise distinct part keys"
+-- (two different parts of equal weight, e.g. `<int:x>` vs `<float:y>`, are a genuine tie that
+-- insertion order breaks — found by the stream as well), the non-strict admission forms, and the
+-- bookkeeping that `mkMap` numbers rules by position.
 
 end Wz.Props.C03
